@@ -8,8 +8,8 @@ import (
 	"runtime/debug"
 	"sort"
 	"strconv"
-	"sync"
 	"strings"
+	"sync"
 
 	"github.com/vicanso/pike/config"
 	"verifh/hx"
